@@ -160,7 +160,7 @@ static void check_line(const std::vector<int>& r) {
   size_t n = r.size();
   CNT("ev.states", 1);
   CNT("ev.traces", 1);
-  { static long long* len_counter[16] = {}; if (n < 16) { if (!len_counter[n]) len_counter[n] = &vf::stats().c["line.len" + std::to_string(n)]; ++*len_counter[n]; } }
+  { static long long* len_counter[64] = {}; if (n < 64) { if (!len_counter[n]) len_counter[n] = &vf::stats().c["line.len" + std::to_string(n)]; ++*len_counter[n]; } }
   vf::stats().sample(cs, 3);
 
   int maxr = 0, minr = 0;
